@@ -197,6 +197,7 @@ pub fn main(spec_path: &str) {
     let mut pause = false;
     let mut nprinters = 0usize;
     let mut printers_late = false;
+    let mut linger = false;
     let mut binds: Vec<(Vec<KeyEvent>, Cmd)> = Vec::new();
     let mut sqlite: Option<String> = None;
     let mut history2: Vec<String> = Vec::new();
@@ -239,6 +240,7 @@ pub fn main(spec_path: &str) {
             "pause" => pause = t[1] == "1",
             "printers" => nprinters = t[1].parse().unwrap(),
             "printers_late" => printers_late = t[1] == "1",
+            "linger" => linger = t[1] == "1",
             "bind" => binds.push((parse_keys(t[1]), parse_cmd(&t[2..]))),
             // an SQLite history at this path: `history` lines are entered by an earlier session (the database is then
             // closed and reopened), `history2` lines by the session the reads run in
@@ -257,7 +259,7 @@ pub fn main(spec_path: &str) {
         .max_history_size(max_hist)
         .unwrap()
         .build();
-    let st = Setup { log: log.clone(), use_helper, script, binds, printer, nprinters, printers_late, reads, initial, prompt, pause };
+    let st = Setup { log: log.clone(), use_helper, script, binds, printer, nprinters, printers_late, linger, reads, initial, prompt, pause };
     if let Some(path) = sqlite {
         let _ = std::fs::remove_file(&path);
         {
@@ -294,6 +296,7 @@ struct Setup {
     printer: bool,
     nprinters: usize,
     printers_late: bool,
+    linger: bool,
     reads: usize,
     initial: Option<(String, String)>,
     prompt: String,
@@ -333,7 +336,7 @@ fn spawn_printers<I: History>(rl: &mut Editor<ScriptHelper, I>, nprinters: usize
 }
 
 fn drive<I: History>(mut rl: Editor<ScriptHelper, I>, st: Setup, history: &[String]) {
-    let Setup { log, use_helper, script, binds, printer, nprinters, printers_late, reads, initial, prompt, pause } = st;
+    let Setup { log, use_helper, script, binds, printer, nprinters, printers_late, linger, reads, initial, prompt, pause } = st;
     if use_helper {
         rl.set_helper(Some(ScriptHelper { s: script, hl: MatchingBracketHighlighter::new(), calls: Mutex::new(0) }));
     }
@@ -389,6 +392,13 @@ fn drive<I: History>(mut rl: Editor<ScriptHelper, I>, st: Setup, history: &[Stri
         }
     }
     logln(&log, "S done");
+    if linger {
+        // stay alive after the last read (blocked reading the terminal) so that printers can be used when no read is
+        // in progress; the driver's hang-up ends the wait
+        use std::io::Read;
+        let mut b = [0u8; 1];
+        let _ = std::io::stdin().read(&mut b);
+    }
 }
 
 fn parse_key(t: &str) -> KeyEvent {
